@@ -57,9 +57,17 @@ def translate(text):
     return text.replace("\r\n", "\n").replace("\r", "\n")
 
 
-def file_bytes(ext, payload, with_chart, key_only=False):
+_UNIQ = [0]
+
+
+def file_bytes(ext, payload, with_chart, key_only=False, unique=False):
+    """unique=True adds a property whose key and value differ in every call, so that anything left over from an
+    earlier run (a shared buffer, a cache) shows up as a foreign key in a later file."""
     head = b"#VERSION:0.83;\n" if ext == ".ssc" else b""
     body = b"#TITLE:" + payload + b";\n#ARTIST:x;\n" + (b"#GENRE;\n" if key_only else b"")
+    if unique:
+        _UNIQ[0] += 1
+        body += b"#RUN%d:r%d;\n" % (_UNIQ[0], _UNIQ[0])
     if with_chart:
         if ext == ".ssc":
             body += b"#NOTEDATA:;\n#STEPSTYPE:dance-single;\n#DESCRIPTION:" + payload + b";\n#NOTES:\n0000\n0000\n;\n"
